@@ -395,6 +395,10 @@ package rewriter
 
 // pass 1 callback: the iterator constructor is chosen by the kind of the operand's (underlying) type, the operand itself is the
 // constructor's only argument (evaluated once, before the loop), and nothing but range statements is touched (C04).
+//@ extern (ast.Node).Pos(n) (p)
+//@   ensures true      -- source positions carry no meaning for the contracts
+//@ extern (ast.Node).End(n) (p)
+//@   ensures true
 //@ extern (types.Type).Underlying(t) (u)
 //@   ensures u == typeUnderlying(t)
 //@ extern (*types.Basic).Info(b) (i)
@@ -557,6 +561,10 @@ package rewriter
 //@ func (r *yieldRewriter) isTerminating(s) (t)
 //@   trusted      -- collects the builtin-panic call sites with the external matcher, then runs the verified checker
 //@   ensures t ==> SpecTermAny(s)
+
+//@ func (r *rewriter) containsYield(pkg, n) (c)
+//@   trusted      -- recover-based astutil traversal (outside the subset): is there a call of Yield / YieldFrom outside nested function literals
+//@   ensures c == HasYield(iface(n, BlockStmt))
 
 //@ func (r *yieldRewriter) mustNoYield(stmt) (t)
 //@   trusted      -- delegates to rewriter.containsYield (recover-based traversal, outside the subset); bounded stand-in in the thorough tier
@@ -952,6 +960,10 @@ package rewriter
 //@        && fieldmap(ast.TypeSwitchStmt.Init) == old(fieldmap(ast.TypeSwitchStmt.Init))
 //@   ensures[balanced] isa(cursorNode(c), FuncDecl) || isa(cursorNode(c), FuncLit) ==> SLen(yieldFunStack) == old(SLen(yieldFunStack)) - 1
 //@   ensures[depth] !(isa(cursorNode(c), FuncDecl) || isa(cursorNode(c), FuncLit)) ==> SLen(yieldFunStack) == old(SLen(yieldFunStack)) && STop(yieldFunStack) == old(STop(yieldFunStack))
+//@   -- what pass 2 relies on (A-pass0): inside a generator no for / switch / type-switch keeps a short variable declaration as its initialiser
+//@   ensures[a-pass0] old(STop(yieldFunStack)) ==> (isa(cursorNode(c), ForStmt) ==> !IsDefine(as(cursorNode(c), ForStmt).Init))
+//@        && (isa(cursorNode(c), SwitchStmt) ==> !IsDefine(as(cursorNode(c), SwitchStmt).Init))
+//@        && (isa(cursorNode(c), TypeSwitchStmt) ==> !IsDefine(as(cursorNode(c), TypeSwitchStmt).Init))
 //@   -- C18/C01: a generator's `return e` still evaluates e, at the place of the return: `_ = e` is inserted in front, whatever e is
 //@   -- (an index, a field of a nil pointer, a type assertion or a division can panic without containing a call)
 //@   ensures[return-result-evaluated] isa(cursorNode(c), ReturnStmt) && old(STop(yieldFunStack)) && as(cursorNode(c), ReturnStmt).Return != 0
